@@ -11,7 +11,7 @@ RULE = ('same generator as C01 with scripts biased to hooks, guards (including g
         'distinct_nontrivial = distinct (kind, offer-path length, number of declines, depth of current state) tuples '
         'of non-transition steps plus the transition tuples of C01')
 CASES = {'quick': 30000, 'thorough': 600000}
-BUDGET = {'quick': 40, 'thorough': 300}
+BUDGET = {'quick': 150, 'thorough': 300}
 REQUIRE = {'handled_steps': 1000, 'ignored_steps': 1000, 'declines': 200, 'hooks_at_depth_3': 5, 'guards_touching_search_pointer': 1000, 'client_queries_between_steps': 20000}
 ASSUME = ['generated charts are well-formed', 'offers are observed inside the undecorated handler (one record per invocation with a user signal)']
 
